@@ -699,6 +699,99 @@ func c11CanStreamChecksFlag() bool {
 	return found
 }
 
+// c11PoolBlocks: the admission rule of the snapshot pool. For every task kind tested by
+// workerPool.canSchedule (`if j.task.<Kind> {...}`) the in-progress maps (saving /
+// recovering / streaming) that block it: the maps looked up by the can<X> predicate the branch
+// returns (through inProgress when it is called); when a branch has several return paths the
+// job is admitted if any of them admits it, so the intersection of their map sets is taken.
+func c11PoolBlocks() [][2]interface{} {
+	p := loadPkg(".")
+	maps := func(fn string) []string {
+		var walk func(fn string, depth int) []string
+		walk = func(fn string, depth int) []string {
+			fd := p.Func("workerPool", fn)
+			var out []string
+			ast.Inspect(fd.Body, func(n ast.Node) bool {
+				switch x := n.(type) {
+				case *ast.IndexExpr:
+					sel := c11Sel(x.X)
+					for _, m := range []string{"saving", "recovering", "streaming"} {
+						if strings.HasSuffix(sel, "."+m) {
+							out = append(out, m)
+						}
+					}
+				case *ast.CallExpr:
+					if strings.HasSuffix(c11Sel(x.Fun), ".inProgress") && depth < 3 {
+						out = append(out, walk("inProgress", depth+1)...)
+					}
+				}
+				return true
+			})
+			return out
+		}
+		return walk(fn, 0)
+	}
+	fd := p.Func("workerPool", "canSchedule")
+	var res [][2]interface{}
+	var visit func(st ast.Stmt)
+	visit = func(st ast.Stmt) {
+		ifs, ok := st.(*ast.IfStmt)
+		if !ok {
+			return
+		}
+		cond := c11Sel(ifs.Cond)
+		if strings.HasPrefix(cond, "j.task.") {
+			kind := strings.TrimPrefix(cond, "j.task.")
+			var sets [][]string
+			ast.Inspect(ifs.Body, func(n ast.Node) bool {
+				if r, ok := n.(*ast.ReturnStmt); ok && len(r.Results) == 1 {
+					if c, ok := r.Results[0].(*ast.CallExpr); ok {
+						name := c11Sel(c.Fun)
+						if i := strings.LastIndex(name, "."); i >= 0 && strings.HasPrefix(name[i+1:], "can") {
+							sets = append(sets, maps(name[i+1:]))
+						} else {
+							sets = append(sets, nil)
+						}
+					} else {
+						sets = append(sets, nil)
+					}
+				}
+				return true
+			})
+			if len(sets) == 0 {
+				panic("canSchedule: branch " + kind + " has no return")
+			}
+			var inter []string
+			for _, m := range []string{"saving", "recovering", "streaming"} {
+				all := true
+				for _, set := range sets {
+					has := false
+					for _, x := range set {
+						if x == m {
+							has = true
+						}
+					}
+					all = all && has
+				}
+				if all {
+					inter = append(inter, m)
+				}
+			}
+			res = append(res, [2]interface{}{kind, inter})
+		}
+		if ifs.Else != nil {
+			visit(ifs.Else)
+		}
+	}
+	for _, st := range fd.Body.List {
+		visit(st)
+	}
+	if len(res) == 0 {
+		panic("canSchedule: no task kind branches found")
+	}
+	return res
+}
+
 func init() {
 	str := func(s string) string { return fmt.Sprintf("%q%%string", s) }
 	register(&Unit{Name: "C11", Imports: "From Coq Require Import Bool.", Facts: []Fact{
@@ -767,6 +860,24 @@ func init() {
 		{Name: "can_stream_checks_streaming", Gen: func() string {
 			return "(* node.canStream refuses a stream task while node.ss.streaming() *)\n" +
 				defBool("can_stream_checks_streaming", c11CanStreamChecksFlag())
+		}},
+		{Name: "pool_blocks", Gen: func() string {
+			rows := c11PoolBlocks()
+			var b strings.Builder
+			b.WriteString("(* workerPool.canSchedule: task kind -> in-progress maps of the shard that keep the job waiting *)\n")
+			b.WriteString("Definition pool_blocks : list (string * list string) :=\n  [")
+			for i, r := range rows {
+				if i > 0 {
+					b.WriteString(";\n   ")
+				}
+				var ms []string
+				for _, m := range r[1].([]string) {
+					ms = append(ms, str(m))
+				}
+				fmt.Fprintf(&b, "(%s, [%s])", str(r[0].(string)), strings.Join(ms, "; "))
+			}
+			b.WriteString("].\n")
+			return b.String()
 		}},
 		{Name: "apply_checks_stopped", Gen: func() string {
 			return "(* engine.processApplies tests node.stopped() before node.handleTask *)\n" +
